@@ -112,15 +112,35 @@ def manufactured_deck(rnd, nslides=3):
         s = prs.slides[0]
         for fmt in ("PNG", "JPEG", "PNG"):  # -> image1.png, image2.jpg, image3.png
             s.shapes.add_picture(io.BytesIO(gen.png_bytes(rnd, fmt=fmt)), 0, 0)
+    if rnd.random() < 0.5:
+        # a picture that only an unused layout holds (removing that layout drops the image part from the package)
+        from pptx.oxml.shapes.picture import CT_Picture
+
+        lay = prs.slide_layouts[rnd.choice([7, 8, 9, 10])]
+        image_part, rId = lay.part.get_or_add_image_part(io.BytesIO(gen.png_bytes(rnd)))
+        spTree = lay.shapes._spTree
+        pic = CT_Picture.new_pic(1 + max(int(x) for x in spTree.xpath("//p:cNvPr/@id")), "Layout Picture", "layout.png", rId, 0, 0, 914400, 914400)
+        spTree.insert_element_before(pic, "p:extLst")
     buf = io.BytesIO()
     prs.save(buf)
     data = buf.getvalue()
-    if rnd.random() < 0.4:
-        nums = list(range(1, nslides + 1))
+    n = nslides
+    cls = rnd.choice(["dense-permuted", "dense-permuted", "gapped", "gapped", "ascending-shifted", "ascending-with-hole", "last-is-n"])
+    if cls == "dense-permuted":  # 1..n, not in presentation order
+        nums = list(range(1, n + 1))
         while nums == sorted(nums):
             rnd.shuffle(nums)
+    elif cls == "ascending-shifted":  # 2..n+1 (first slide deleted without renumbering): in order, but not 1..n
+        nums = list(range(2, n + 2))
+    elif cls == "ascending-with-hole":  # 1..n+1 without one: in order, the name slide<n+1> is taken
+        hole = rnd.randrange(1, n + 1)
+        nums = [i for i in range(1, n + 2) if i != hole]
+    elif cls == "last-is-n":  # the last slide is slide<n>, an earlier one is slide<n+1>
+        nums = list(range(1, n + 1))
+        j = rnd.randrange(0, n - 1)
+        nums[j] = n + 1
     else:
-        nums = rnd.sample(range(1, 12), nslides)
+        nums = rnd.sample(range(1, 12), n)
         if nums == sorted(nums) and nums[0] == 1:
             nums = list(reversed(nums))
     # two-step rename through temporary names to allow permutations
@@ -131,11 +151,14 @@ def manufactured_deck(rnd, nslides=3):
         names = sorted(n for n in opcx.Pkg.from_bytes(data).members if n.startswith("ppt/media/image"))
         jpg = [n for n in names if not n.endswith(".png")]
         png = [n for n in names if n.endswith(".png")]
-        if len(jpg) == 1 and len(png) == 2:
+        if len(jpg) == 1 and len(png) >= 2:
             ext = jpg[0].rsplit(".", 1)[1]
-            m = {"/" + jpg[0]: "/ppt/media/tmpimage1." + ext, "/" + png[1]: "/ppt/media/tmpimage2.png"}
-            data = rename_members(data, m)
-            data = rename_members(data, {"/ppt/media/tmpimage1." + ext: "/ppt/media/image1." + ext, "/ppt/media/tmpimage2.png": "/ppt/media/image2.png"})
+            m1 = {"/" + jpg[0]: "/ppt/media/tmpimage1." + ext}
+            m2 = {"/ppt/media/tmpimage1." + ext: "/ppt/media/image1." + ext}
+            for k, n_ in enumerate(png[1:], start=2):  # the PNGs close ranks: image1.png, image2.png, ...
+                m1["/" + n_] = "/ppt/media/tmpimage%d.png" % k
+                m2["/ppt/media/tmpimage%d.png" % k] = "/ppt/media/image%d.png" % k
+            data = rename_members(rename_members(data, m1), m2)
     return data, nums
 
 
@@ -264,6 +287,7 @@ class Run:
             errs, why = xsdkit.validate_part(etree.tostring(part._element))
             self.val_baseline[part] = errs if errs is not None else None
             self.hashes[part] = part_hash(part)
+        self.open_images = sorted({part.blob for part in self.prs.part.package.iter_parts() if str(part.partname).startswith("/ppt/media/image")})[:6]
         self.acc.count("decks_opened")
         monitors.SINK.drain()
 
